@@ -40,14 +40,24 @@ func checkC10(c *Ctx) {
 		gs := m.AllGuards(op.Call, false)
 		apt := hasLit(gs, true, func(s *Sym) bool { return s.Op == "path" && s.Name == m.cfgPath("AllowPriorityTakeover") })
 		c.check(apt, "R1", "takeover only when enabled in "+fn, op.Call, "guards %s", clip(fmtLits(gs), 500))
-		// the Get of this activation
+		// the Get of this activation: the one whose entry's revision the Update presents (a retry
+		// that reads again presents the second read's revision - the comparison must be made on
+		// that read, not on an earlier one)
+		var revGet *ssa.Call
+		if rv := m.Sym.Of(m.traceValue(op.Call.Call.Args[2])); rv.Op == "invoke" && strings.HasSuffix(rv.Name, "Entry.Revision") && len(rv.Args) == 1 && rv.Args[0].Op == "extract" && rv.Args[0].Name == "0" {
+			if kv, ok := m.isKVCall(rv.Args[0].Args[0].V, "Get"); ok {
+				revGet = kv
+			}
+		}
 		var get *ssa.Call
 		for _, l := range gs {
 			if l.Truth && l.S.Op == "bin" && l.S.Name == "==" && symMentions(l.S, "nil") {
 				for _, a := range l.S.Args {
 					if a.Op == "extract" && a.Name == "1" {
 						if kv, ok := m.isKVCall(a.Args[0].V, "Get"); ok && (kv.Parent() == op.Fn || m.staticReach(kv.Parent(), false)[op.Fn]) {
-							get = kv
+							if get == nil || kv == revGet {
+								get = kv
+							}
 						}
 					}
 				}
@@ -64,7 +74,7 @@ func checkC10(c *Ctx) {
 		for _, l := range gs {
 			if l.Truth && l.S.Op == "bin" && l.S.Name == "==" && symMentions(l.S, "nil") {
 				for _, a := range l.S.Args {
-					if a.Op == "call" && a.Name == "encoding/json.Unmarshal" && len(a.Args) == 2 && symMentions(a.Args[0], "Entry.Value(") && symMentions(a.Args[0], "KeyValue.Get(") {
+					if a.Op == "call" && a.Name == "encoding/json.Unmarshal" && len(a.Args) == 2 && symMentions(a.Args[0], "Entry.Value(") && symMentions(a.Args[0], "KeyValue.Get(") && symHasValue(a.Args[0], get) {
 						dec = true
 						target = strings.TrimPrefix(a.Args[1].String(), "&")
 					}
@@ -237,4 +247,20 @@ func takeoverNamesLeaderRule(c *Ctx, rule string) {
 	if n == 0 {
 		c.undecided(rule, "takeover path", nil, "no takeover Update found")
 	}
+}
+
+// symHasValue: does the expression s contain the SSA value v?
+func symHasValue(s *Sym, v ssa.Value) bool {
+	if s == nil {
+		return false
+	}
+	if s.V == v {
+		return true
+	}
+	for _, a := range s.Args {
+		if symHasValue(a, v) {
+			return true
+		}
+	}
+	return false
 }
